@@ -304,6 +304,42 @@ StmtTargets(s, modes) ==
     [] OTHER -> {}
 StmtsTargets(ss, i, modes) == IF i > Len(ss) THEN {} ELSE StmtTargets(ss[i], modes) \cup StmtsTargets(ss, i + 1, modes)
 
+(* ------------------------------------------------------------------ *)
+(* `with cohdl.always:` blocks                                        *)
+(* ------------------------------------------------------------------ *)
+\* "To implement more than one concurrent statement, cohdl.always is [used as a context manager]": the statements of the
+\* block are concurrent logic of their own - they drive their targets continuously, are not part of the enclosing process
+\* (not reset with it, not gated by its clock or by the branch they are written in).  A design is read with every such
+\* block moved into a concurrent context of its own.
+RECURSIVE StripAlways(_, _), AlwaysBlocks(_, _)
+StripAlways(ss, i) ==
+  IF i > Len(ss) THEN << >>
+  ELSE LET s == ss[i]
+           here == CASE s.k = "alwaysblock" -> << >>
+                     [] s.k = "if" -> <<[s EXCEPT !.th = StripAlways(s.th, 1), !.el = StripAlways(s.el, 1)]>>
+                     [] s.k = "while" -> <<[s EXCEPT !.body = StripAlways(s.body, 1)]>>
+                     [] OTHER -> <<s>>
+       IN here \o StripAlways(ss, i + 1)
+AlwaysBlocks(ss, i) ==
+  IF i > Len(ss) THEN << >>
+  ELSE LET s == ss[i]
+           here == CASE s.k = "alwaysblock" -> <<s.body>>
+                     [] s.k = "if" -> AlwaysBlocks(s.th, 1) \o AlwaysBlocks(s.el, 1)
+                     [] s.k = "while" -> AlwaysBlocks(s.body, 1)
+                     [] OTHER -> << >>
+       IN here \o AlwaysBlocks(ss, i + 1)
+
+RECURSIVE ExpandCtxs(_, _)
+ExpandCtxs(cs, i) ==
+  IF i > Len(cs) THEN << >>
+  ELSE LET c == cs[i]
+           blocks == IF c.kind = "seq" THEN AlwaysBlocks(c.body, 1) ELSE << >>
+       IN <<IF c.kind = "seq" THEN [c EXCEPT !.body = StripAlways(c.body, 1)] ELSE c>>
+          \o [j \in 1..Len(blocks) |-> [kind |-> "conc", name |-> "always", body |-> blocks[j], clk |-> "", reset |-> [k |-> "none"],
+                                         coroutine |-> 0, step |-> [k |-> "none"], edge |-> ""]]
+          \o ExpandCtxs(cs, i + 1)
+ExpandAlways(E) == [E EXCEPT !.ctxs = ExpandCtxs(E.ctxs, 1)]
+
 \* design summary computed once
 Summary(E) ==
   LET objs == E.objs
